@@ -111,7 +111,11 @@ def make_book(rng):
         cells[f'E{r}'] = rng.randrange(1, 9)
     cells['E9'] = 4
     cells['E10'] = 6
-    cells['F1'] = rng.choice([0, 3, 5, 3.5])
+    cells['F1'] = rng.choice([0, 3, 5, 3.5, 1 / 3, 0.1 + 0.2, 0.33333333332, 1.00000000001, 2.50000000004, 12345.678901234])
+    for r_ in rng.sample(range(1, 9), 3):
+        # cells holding exactly such a value and its neighbours at the 11th-16th digit
+        cells[f'A{r_}'] = rng.choice([1 / 3, 0.1 + 0.2, 0.3333333333, 0.33333333332, 0.33333333331, 1.00000000001, 1, 1.000000000005, 2.50000000004, 2.5, 2.50000000002,
+                                       12345.678901234, 12345.6789, 12345.67890125, 0.3])
     cells['F2'] = rng.choice(TEXTS)
     forms = []
     row = 1
@@ -187,7 +191,7 @@ def valuations(rng):
             if v is None:
                 continue
             ov.append((0, f'{col}{r}', v))
-        ov.append((0, 'F1', rng.choice([0, 1, 3, 5, 3.5, 10])))
+        ov.append((0, 'F1', rng.choice([0, 1, 3, 5, 3.5, 10, 1 / 3, 0.33333333332, 1.00000000001, 2.50000000004, 12345.678901234])))
         ov.append((0, 'F2', rng.choice(TEXTS)))
         vals.append(ov)
     return vals
